@@ -161,7 +161,11 @@ def do_run(w, op, index, use_twin=True, use_refsim=True):
         if tw is not None:
             d = conform(eff, tw)
             if d:
-                raise HarnessError("twin does not display the tables it was built from: " + "; ".join(d[:4]))
+                # the twin is one fixed script over the public API (build, insert, connect, set, record, stimulate):
+                # a module built by it that does not display what the script just set is a defect of those calls
+                w.violate("twin_equal", "a module built from scratch by the canonical script (construct, insert, connect, set) does not "
+                          "display the values the script set: " + "; ".join(d[:4]), index, {"rebuild": True})
+                return {"outcome": "violation"}
             try:
                 out2, _ = call_integrate(w, tw, dict(op, mode="eager", ckpt=None, vsolver=kw["vsolver"]), steps)
             except HarnessError:
